@@ -6,8 +6,9 @@ limit, offset, fetch, slice, distinct, with_only_columns, add_columns, prefix_wi
 suffix_with, with_hint, with_statement_hint, with_for_update, select_from, correlate,
 execution_options, params, set_label_style, reduce_columns, add_cte, union..., options,
 values, ordered_values, returning, return_defaults, inline, from_select, subquery / cte /
-exists wrapping), each step applied to a random existing node (so parents get several
-children).  When a node is created its *value* is recorded: ``(str(compiled), params)``
+exists wrapping; text(): bindparams / typed bindparams / columns; legacy Query: filter, join,
+add_entity, add_columns, with_entities, options, union ...), each step applied to a random
+existing node (so parents get several children).  When a node is created its *value* is recorded: ``(str(compiled), params)``
 on sqlite, postgresql, mysql, mssql, oracle and default, and its un-memoized cache key.
 
 Oracles (all comparisons of the real code's output with its own earlier output):
@@ -58,7 +59,7 @@ META = {
     "modes": ["cext", "purepy"],
     "soft_s": {"quick": 90, "thorough": 800},
     "exhaustive": {"quick": False, "thorough": False},
-    "require": ["ancestor_rechecks", "branch_points", "copies_checked", "dict_snapshots_compared", "pickle_roundtrips"],
+    "require": ["ancestor_rechecks", "branch_points", "copies_checked", "dict_snapshots_compared", "pickle_roundtrips", "query_trees"],
     "assumptions": ["the first compilation of a freshly created statement is its reference value"],
 }
 
@@ -267,6 +268,8 @@ def run(ctx):
     recipes = RG.recipes(env)
     recipe_names = sorted(recipes)
 
+    query_trees(ctx, env, G, ds, dnames)
+
     for ti in range(ntrees):
         if not ctx.budget_ok():
             break
@@ -281,7 +284,8 @@ def run(ctx):
             spec = {"k": G.stmt_kind(base), "recipe": rname}
             ctx.seen("recipe_bases", rname)
         else:
-            spec = g.stmt()
+            # text() constructs get their own share: bindparams()/columns() along different branches
+            spec = g.text() if rng.random() < 0.12 else g.stmt()
             try:
                 base, _b = G.build(env, spec, vals)
             except G.Inapplicable:
@@ -470,3 +474,84 @@ def run(ctx):
         if ti < 3:
             ctx.sample({"base": spec, "ops": [(n["parent"], n["op"]) for n in nodes],
                         "last_sql_sqlite": nodes[-1]["value"]["sqlite"][0][:400]})
+
+
+def query_trees(ctx, env, G, ds, dnames):
+    """Legacy ``Session.query()`` objects are generative too: trees of Query calls (filter, join, add_entity,
+    add_columns, with_entities, options, order_by, limit, union ...); the value of a Query is the compilation
+    of ``query.statement``; every ancestor is re-judged after every step and at the end."""
+    from sqlalchemy import exc as sa_exc
+
+    rng = ctx.rng
+    ops = G.query_ops(env)
+    ntrees = ctx.pick({"quick": 16, "thorough": 300})
+    maxlen = ctx.pick({"quick": 6, "thorough": 10})
+    session = env.orm.Session()
+    try:
+        for ti in range(ntrees):
+            if not ctx.budget_ok():
+                break
+            vals = G.Vals(ti % 20, salt=1000 + ti)
+            bname, q0 = G.query_bases(env, session, rng, vals)
+            nodes = []
+
+            def value(q, names):
+                out = {}
+                for dn in names:
+                    try:
+                        out[dn] = _value(q.statement, ds[dn])
+                    except sa_exc.SQLAlchemyError as e:
+                        out[dn] = ("EXC", type(e).__name__)
+                return out
+
+            def add(q, parent, opname):
+                nodes.append({"q": q, "value": value(q, dnames), "parent": parent, "op": opname, "children": 0, "dirty": False})
+
+            def recheck(i, names, when):
+                n = nodes[i]
+                if n["dirty"]:
+                    return
+                now = value(n["q"], names)
+                ctx.count("ancestor_rechecks")
+                ctx.count("query_ancestor_rechecks")
+                for dn in names:
+                    if now[dn] != n["value"][dn]:
+                        n["dirty"] = True
+                        later = [m["op"] for m in nodes[i + 1:]]
+                        culprit = later[-1] if later else "recompile"
+                        ctx.violation(
+                            f"earlier-query-sql-changed-after:{culprit}",
+                            f"{dn}: Query #{i} (made by {n['op']}) compiled to {n['value'][dn]!r:.300} when created but to "
+                            f"{now[dn]!r:.300} {when}; later ops {later}",
+                            {"base": bname, "node": i, "ops": [(m["parent"], m["op"]) for m in nodes], "dialect": dn,
+                             "recorded": n["value"][dn], "now": now[dn]})
+                        return
+
+            add(q0, None, "base:" + bname)
+            for step in range(rng.randint(2, maxlen)):
+                pi = len(nodes) - 1 if rng.random() < 0.6 else rng.randrange(len(nodes))
+                new = None
+                for _try in range(4):
+                    name, fn = rng.choice(ops)
+                    try:
+                        new = fn(nodes[pi]["q"], rng, vals)
+                        break
+                    except (sa_exc.SQLAlchemyError, G.Inapplicable):
+                        ctx.count("ops_rejected_by_library")
+                if new is None or new is nodes[pi]["q"]:
+                    continue
+                ctx.seen("ops_applied", "query." + name)
+                nodes[pi]["children"] += 1
+                add(new, pi, name)
+                dn = dnames[(ti + step) % len(dnames)]
+                for i in range(len(nodes) - 1):
+                    recheck(i, [dn], f"after step {step} ({name})")
+            for i in range(len(nodes)):
+                recheck(i, dnames, "at the end of the tree")
+            branch = sum(1 for n in nodes if n["children"] >= 2)
+            ctx.count("branch_points", branch)
+            ctx.count("query_trees")
+            ctx.case({"query": bname, "ops": [(n["parent"], n["op"]) for n in nodes]},
+                     nontrivial=branch > 0 or len({n["op"] for n in nodes[1:]}) >= 3)
+    finally:
+        session.close()
